@@ -145,14 +145,6 @@ impl VClone for String { #[verifier::external_body] fn vclone(&self) -> (r: Self
 #[verifier::external_body] pub fn val_from_array(a: Array) -> (r: Val) ensures r.v() == SVal::Array(a) { unimplemented!() }
 #[verifier::external_body] pub fn string_from_str(s: &str) -> (r: String) ensures r@ == s@ { unimplemented!() }
 
-// derive_more::IsVariant on Val (one predicate per variant; regenerated here, verified)
-impl Val {
-    pub fn is_undefined(&self) -> (r: bool) ensures r == (*self is Undefined) { matches!(self, Val::Undefined) }
-    pub fn is_null(&self) -> (r: bool) ensures r == (*self is Null) { matches!(self, Val::Null) }
-    pub fn is_string(&self) -> (r: bool) ensures r == (*self is String) { matches!(self, Val::String(_)) }
-    pub fn is_array(&self) -> (r: bool) ensures r == (*self is Array) { matches!(self, Val::Array(_)) }
-}
-
 // `unreachable!()` / `unreachable_unchecked()` are rewritten to vstd's `unreached()` (requires false):
 // reaching one is a failed proof obligation.
 pub use vstd::pervasive::unreached;
